@@ -209,6 +209,7 @@ type Conn struct {
 	Writes      int
 	Reads       int
 
+	clientIP string
 	DialTask int // id of the task that dialled
 	DialAt   time.Duration
 	DialStep int
@@ -246,16 +247,29 @@ func (c *Conn) mkAddr(s string) net.Addr {
 	return net.UDPAddrFromAddrPort(ap)
 }
 
+func (c *Conn) clientAddr() string {
+	ip := "10.0.0.1"
+	if c.side == "c" && c.clientIP != "" {
+		ip = c.clientIP
+	} else if c.side == "s" && c.peer.clientIP != "" {
+		ip = c.peer.clientIP
+	}
+	return fmt.Sprintf("%s:%d", ip, 40000+c.ID%20000)
+}
+
+// SetClientIP sets the source address the server end reports for this connection.
+func (c *Conn) SetClientIP(ip string) { c.clientIP = ip }
+
 func (c *Conn) LocalAddr() net.Addr {
 	if c.side == "c" {
-		return c.mkAddr(fmt.Sprintf("10.0.0.1:%d", 40000+c.ID%20000))
+		return c.mkAddr(c.clientAddr())
 	}
 	return c.mkAddr(c.addr)
 }
 
 func (c *Conn) RemoteAddr() net.Addr {
 	if c.side == "s" {
-		return c.mkAddr(fmt.Sprintf("10.0.0.1:%d", 40000+c.ID%20000))
+		return c.mkAddr(c.clientAddr())
 	}
 	return c.mkAddr(c.addr)
 }
